@@ -134,6 +134,65 @@ Qed.
 
 End Load.
 
+(* ---------- the projection tree lists exactly the written elements, in the order ser_ids lists them ---------- *)
+Section Preorder.
+Variable T : tables.
+Variables (w : world) (ff : option N).
+Hypothesis CL : CharsLeaf T w.
+
+Definition epre_go : list (Parser.etree + Parser.cdata) -> list (N * list (N * Parser.cdata)) :=
+  fix go (l : list (Parser.etree + Parser.cdata)) : list (N * list (N * Parser.cdata)) :=
+    match l with
+    | [] => []
+    | inl s :: r => epre s ++ go r
+    | inr _ :: r => go r
+    end.
+
+Lemma epre_unfold name ty attrs content cm : epre (Parser.ENode name ty attrs content cm) = (name, attrs) :: epre_go content.
+Proof. reflexivity. Qed.
+
+Lemma fproj_items_data rec l content : elems l = [] -> fproj_items w ff rec l = Some content -> epre_go content = [].
+Proof.
+  revert content. induction l as [|[c|d] l IH]; intros content E H; cbn [fproj_items] in H.
+  - injection H as <-. reflexivity.
+  - cbn in E. discriminate.
+  - destruct (fproj_items w ff rec l) as [rest|] eqn:Er; [|discriminate]. injection H as <-. cbn [epre_go]. apply IH; auto.
+Qed.
+
+Lemma fproj_preorder : forall fuel i l t, ser_ids T fuel w ff i = Val l -> fproj fuel w ff i = Some t ->
+  epre t = map (label_at w) l.
+Proof.
+  induction fuel as [|fl IH]; intros i l t Hl Ht; [discriminate|].
+  rewrite ser_ids_unfold in Hl. cbn [fproj] in Ht.
+  destruct (w_nodes w i) as [n|] eqn:Hn; [|discriminate].
+  destruct (fproj_items w ff (fproj fl w ff) (n_content n)) as [content|] eqn:Ec; [|discriminate]. injection Ht as <-.
+  rewrite epre_unfold.
+  assert (label_at w i = (n_name n, pc_attrs (n_attrs n))) as Hlab by (unfold label_at; rewrite Hn; reflexivity).
+  destruct (n_content n) as [|first rest] eqn:En.
+  { injection Hl as <-. cbn [fproj_items] in Ec. injection Ec as <-. cbn. rewrite Hlab. reflexivity. }
+  rewrite <- En in *. destruct (content_mode T (n_type n)) as [mode| |] eqn:Em; cbn [bind] in Hl; try discriminate.
+  destruct (mode =? MCharacters) eqn:Ech.
+  { injection Hl as <-. pose proof (CL i n mode Hn Em Ech) as Hk. unfold kids in Hk.
+    rewrite (fproj_items_data _ _ _ Hk Ec). cbn. rewrite Hlab. reflexivity. }
+  destruct (ids_subs T fl w ff (n_content n)) as [body| |] eqn:Eb; cbn [bind] in Hl; try discriminate. injection Hl as <-.
+  cbn [map]. rewrite Hlab. f_equal.
+  clear En Hn Hlab Em Ech. revert body content Eb Ec. generalize (n_content n) as lst.
+  induction lst as [|[c|d] lst IHl]; intros body content Eb Ec; cbn [ids_subs fproj_items] in *.
+  - injection Eb as <-. injection Ec as <-. reflexivity.
+  - fold (ids_subs T fl w ff) in Eb. destruct (w_nodes w c) as [cn|]; [|discriminate]. destruct (passes ff cn).
+    + destruct (ser_ids T fl w ff c) as [a| |] eqn:Ea; cbn [bind] in Eb; try discriminate.
+      destruct (ids_subs T fl w ff lst) as [b| |] eqn:Ebb; cbn [bind] in Eb; try discriminate. injection Eb as <-.
+      destruct (fproj fl w ff c) as [tc|] eqn:Etc; [|discriminate].
+      destruct (fproj_items w ff (fproj fl w ff) lst) as [restc|] eqn:Er; [|discriminate]. injection Ec as <-.
+      cbn [epre_go]. rewrite map_app, (IH c a tc Ea Etc), (IHl b restc eq_refl eq_refl). reflexivity.
+    + apply IHl; auto.
+  - fold (ids_subs T fl w ff) in Eb.
+    destruct (fproj_items w ff (fproj fl w ff) lst) as [restc|] eqn:Er; [|discriminate]. injection Ec as <-.
+    cbn [epre_go]. apply IHl; auto.
+Qed.
+
+End Preorder.
+
 (* ====================================================================== ArxmlFile::serialize, loaded alone *)
 Section SelfContained.
 Variable strict : bool.
